@@ -161,6 +161,14 @@ def programs(tier):
                         break
                 if pos == 1 and quick and len(combo) == 1:
                     continue
+            # a failing operation whose exception object the caller keeps (its traceback keeps the failed Operation alive) while
+            # the same arrays enter live graphs; the exception is dropped while those graphs are still alive
+            if r <= 2:
+                base = [("event", "FAILKEEP")] + [("create", n) for n in combo] + [("event", "DROPEXC")]
+                for how in ("del", "clear"):
+                    out.append(base + [("release", n, how) for n in combo])
+                if r == 2:
+                    out.append([("create", combo[0]), ("event", "FAILKEEP"), ("create", combo[1]), ("event", "DROPEXC")] + [("release", n, "del") for n in combo[::-1]])
     return out
 
 
@@ -243,7 +251,23 @@ def run_history(mg, prog):
             elif st[0] == "event":
                 ev = st[1]
                 label = ev
-                if ev == "FAIL":
+                if ev == "FAILKEEP":
+                    label = "mg.add(x, A, out=<wrong shape>) fails, exception kept"
+                    try:
+                        mg.add(env["x"], A, out=np.zeros(7))
+                        return "the failing statement did not fail"
+                    except ValueError as e:
+                        env["_exc"] = e
+                    try:
+                        mg.multiply(env["x"], O, out=np.zeros(7))
+                        return "the failing statement did not fail"
+                    except ValueError as e:
+                        env["_exc2"] = e
+                elif ev == "DROPEXC":
+                    label = "the kept exceptions are dropped"
+                    env.pop("_exc", None)
+                    env.pop("_exc2", None)
+                elif ev == "FAIL":
                     label = "x + np.ones(7)  (fails)"
                     try:
                         env["x"] + np.ones(7)
